@@ -27,6 +27,8 @@ SPELLINGS_UNI = ["é", "É", "café", "CAFÉ", "straße", "STRASSE", "İstanbul"
                  "Ünï", "ünï", "é", "ﬁ", "Ǆ", "ǅ", "ǆ", " nbsp", "зима", "ЗИМА"]
 
 PREFIXES = ["", "pre_", "NS::", "é-", "界", "a b ", "X"]
+# literals made of escaped (doubled) braces only: no {placeholder}, so they are fixed names
+SPELLINGS_BRACES = ["{{", "}}", "{{}}", "{{open", "close}}", "a{{b}}c", "{{0}}", "{{x}}", "}}{{", "{{{{", "é{{é}}"]
 
 
 def rng_for(seed, *salt):
@@ -58,8 +60,10 @@ def pick_idents(r, n, pool=None, avoid_snake_collisions=False):
 
 def rand_fields(r, kind, nmax=3, types=None, generics=None, distinct_types=False):
     types = list(types or SAFE_TYPES)
-    if generics in ("T", "Tw", "TU", "aT", "TN", "aTw"):
+    if generics in ("T", "Tw", "TU", "aT", "TN", "aTw", "Tdef", "TNdef"):
         types.append("T")
+    if generics == "TNdef":
+        types.append("CG")
     if generics == "aTw":
         types.append("RefStr")
     if generics == "I":
@@ -89,7 +93,7 @@ def ensure_generics_used(r, spec):
     """Every declared generic parameter must be used by some field, otherwise rustc rejects the enum."""
     g = spec.generics
     need = {"T": ["T"], "Tw": ["T"], "TU": ["T", "U"], "a": ["RefStr"], "aT": ["RefStr", "T"], "N": ["CG"], "TN": ["T", "CG"],
-            "aTw": ["RefStr", "T"], "I": ["Item"], "aI": ["RefItem"]}.get(g, [])
+            "aTw": ["RefStr", "T"], "I": ["Item"], "aI": ["RefItem"], "Tdef": ["T"], "TNdef": ["T", "CG"]}.get(g, [])
     used = {f.ty for v in spec.variants for f in v.fields}
     missing = [t for t in need if t not in used]
     if not missing:
